@@ -5,7 +5,7 @@
     is reachable from the empty storage by a fault-free history of obtain / renew / manage /
     revocation (by the CA, or RevokeCert) steps for the subject, with arbitrary issuer answers". *)
 From Coq Require Import List NArith ZArith Bool.
-From CM Require Import Bundle.Model Bundle.Proofs Bundle.Recency Bundle.Faults Bundle.Check Gen.Consts.
+From CM Require Import Bundle.Model Bundle.Proofs Bundle.Recency Bundle.Faults Bundle.Check Bundle.Sound6 Gen.Consts.
 Import ListNotations.
 Open Scope N_scope.
 
@@ -214,6 +214,20 @@ Proof.
   vm_compute. reflexivity.
 Qed.
 Print Assumptions C06_most_recently_issued_refuted_backdating.
+
+(** * the check's monitor and the theorems say the same thing
+    [Check.spec_state] = the state clauses [check_line6] evaluates on the IMPLEMENTATION's observation of
+    every step (complete matching bundle; reload returns the newest bundle; cached certificate names the
+    identifier; compromised key not served again). Evaluated on the model's own observation of a step from
+    any reachable state it is true, under the hypotheses of the partial theorems (consistent spelling; one
+    issuer or no key reuse) - the two excluded classes are the two known findings. The revocations the
+    monitor knows ([env]) are the model's [k_ocsp]. *)
+Theorem C06_monitor_sound_state : forall cfg sp orc h w,
+  reach6 cfg sp (w_core w) -> oracle_ok cfg orc -> s_load sp = s_save sp ->
+  (n_iss cfg = 1%nat \/ reuse cfg = false) ->
+  spec_state cfg sp (k_ocsp (w_core w)) (w_st w) h (fst (model_step no_faults cfg sp w h orc)) = true.
+Proof. exact monitor_sound_state. Qed.
+Print Assumptions C06_monitor_sound_state.
 
 (** non-vacuity of the hypotheses *)
 Example C06_reachable_nontrivial :
